@@ -1042,6 +1042,12 @@ class C21(C.Check):
 
     # ---- replay ----
     def replay(self, ctx, rp):
+        try:
+            return self.replay_(ctx, rp)
+        finally:
+            cleanup_scratch(self.prop)
+
+    def replay_(self, ctx, rp):
         if rp.get("kind") == "no-failing-input-found":
             still = False
             for b in rp.get("broken", []):
